@@ -118,8 +118,13 @@ func (c *DefaultMatcher) Match(args []reflect.Value) bool {
 	}
 	if c.isVariadic {
 		// 可变参数需要展开参数数组
+		// only the trailing variadic slice is expanded, leading fixed parameters are kept
 		expandArgs := make([]reflect.Value, 0)
-		for _, v := range args {
+		for j, v := range args {
+			if j < len(args)-1 {
+				expandArgs = append(expandArgs, v)
+				continue
+			}
 			rv := reflect.ValueOf(v.Interface())
 			for i := 0; i < rv.Len(); i++ {
 				expandArgs = append(expandArgs, rv.Index(i))
